@@ -14,6 +14,12 @@ oracle_c06 — line protocol (all numbers decimal, signed 64-bit unless said oth
   `nburst <ts> <n>` / `npar <ts> <g> <k>`                                                    → as `burst`
   `mono <node> <n> <g>`          MonoNode under the real clock; the runner feeds the observed
                                  ids back as `monocheck`                                      → `accepted` | `err`
+  `nheld <cur> <tsLast> <ts>+`   (T) fresh UnixNanoID(cur); the callers GenIDByTS(ts_i) are queued on its held mutex in
+                                 this order, released, then GenIDByTS(tsLast)                → `ids=<id,…> last=<id>`
+  `hheld <node> <min> <msLast> <ms>+` (T) fresh NewNode; callers queued in order, the injected clock answers one
+                                 caller at a time with ms_i; then one call at msLast         → `ids=<id,…> last=<id>` | `err`
+  `nstress <cur> <g> <k>` / `hstress <node> <ms> <g> <k>`  multi-goroutine stress on a fresh generator with varying
+                                 timestamps / clock; monitors only                           → `ok` | `err`
   `monocheck <node> <id>*`       is the trace one of a fresh MonoNode(node) for some
                                  non-decreasing clock?                                        → `accepted` | `rejected@<i>` | `err`
 The accessor configuration is the one regenerated from the source (`Nv.Gen.C06.cfg`).
@@ -161,6 +167,38 @@ def step (s : OState) (line : String) : OState × String :=
     match parseI64 node, parseCount n 100000, parseCount g 64 with
     | some node, some _, some _ => (s, monoCheck s node [])
     | _, _, _ => (s, "bad-op")
+  | "nheld" :: cur :: tsLast :: tss =>
+    -- k callers queued on the generator's mutex in this order, then one sequential call (fresh generator)
+    match parseI64 cur, parseI64 tsLast, tss.mapM parseI64 with
+    | some cur, some tsLast, some tss =>
+      if tss.isEmpty || tss.length > 16 then (s, "bad-op") else
+      let r := tss.foldl (fun (acc : BitVec 64 × List (BitVec 64)) ts => let x := nanoGen ts acc.1; (x.2, x.1 :: acc.2)) (cur, [])
+      let l := nanoGen tsLast r.1
+      (s, s!"ids={",".intercalate (r.2.reverse.map showId)} last={showId l.1}")
+    | _, _, _ => (s, "bad-op")
+  | "hheld" :: node :: min :: msLast :: mss =>
+    -- k callers of a fresh node queued in this order, the clock answering them one by one with these readings
+    match parseI64 node, parseI64 min, parseI64 msLast, mss.mapM parseI64 with
+    | some node, some min, some msLast, some mss =>
+      if mss.isEmpty || mss.length > 16 then (s, "bad-op") else
+      match newNode c s.nb s.nal s.epochG node min with
+      | none => (s, "err")
+      | some h =>
+        let r := mss.foldl (fun (acc : HState × List (BitVec 64)) ms =>
+          let x := hardGen c s.nb s.nal acc.1 ⟨ms.toInt, 0⟩; (x.1, x.2 :: acc.2)) (h, [])
+        let l := hardGen c s.nb s.nal r.1 ⟨msLast.toInt, 0⟩
+        (s, s!"ids={",".intercalate (r.2.reverse.map showId)} last={showId l.2}")
+    | _, _, _, _ => (s, "bad-op")
+  | ["nstress", cur, g, k] =>
+    -- g goroutines × k calls with per-goroutine timestamp sequences on a fresh generator: judged by the monitors only
+    match parseI64 cur, parseCount g 64, parseCount k 10000 with
+    | some _, some _, some _ => (s, "ok")
+    | _, _, _ => (s, "bad-op")
+  | ["hstress", node, ms, g, k] =>
+    match parseI64 node, parseI64 ms, parseCount g 64, parseCount k 10000 with
+    | some node, some _, some _, some _ =>
+      if BitVec.slt node 0#64 || BitVec.slt ((1#64 <<< s.nb.toNat) - 1#64) node then (s, "err") else (s, "ok")
+    | _, _, _, _ => (s, "bad-op")
   | "monocheck" :: node :: ids =>
     match parseI64 node, ids.mapM parseI64 with
     | some node, some ids => (s, monoCheck s node ids)
